@@ -507,3 +507,124 @@ def spelled_grids(ver=None, depth=2, excl=frozenset(), whole_hours=False, max_co
 
 def spelling_plans(max_size=80):
     return st.lists(st.integers(0, 11), max_size=max_size)
+
+
+# --------------------------------------------------------------------------
+# size sweeps: one dimension of a document at a time is pushed over the usual power-of-two / power-of-ten
+# boundaries (a cache, a buffer, a chunked writer, a recursion or a "fast path for small inputs" would live there)
+SIZE_STEPS = [9, 10, 11, 15, 16, 17, 20, 31, 32, 33, 50, 63, 64, 65, 99, 100, 101, 127, 128, 129, 200, 255, 256, 257,
+              300, 500, 511, 512, 513, 999, 1000, 1001, 1023, 1024, 1025]
+SIZE_STEPS_LONG = [2047, 2048, 2049, 4095, 4096, 4097, 8191, 8192, 8193, 9999, 10000, 10001, 16383, 16384, 16385, 32767, 32768,
+                   32769, 65535, 65536, 65537, 100000, 131073]
+SIZE_AXES = ['rows', 'cols', 'gridmeta', 'colmeta', 'list', 'dict', 'str', 'uri', 'refdis', 'xstr', 'grids', 'nestrows',
+             'strcells', 'distinct', 'digits', 'nestlist']
+
+
+def _size_pool(ver):
+    pool = []
+    for m in catalogue_scalars(ver):
+        if m[0] in ('null', 'grid', 'list', 'dict'):
+            continue
+        if m[0] == 'uri' and any(ord(c) < 0x20 for c in m[1]):
+            continue
+        pool.append(m)
+    return pool[::5]
+
+
+def _size_text(n, salt=0):
+    """n characters, mostly plain, with a metacharacter every few positions and the interesting ones at both ends"""
+    specials = ['"', '\\', '$', '`', '\n', ',', ':', u'\xe9', u' ', u'\U0001F600', '\t', ' ', ']', '}', '>', '\x01']
+    out = []
+    for i in range(n):
+        if (i + salt) % 7 == 3 or i in (0, n - 1):
+            out.append(specials[(i // 7 + i + salt) % len(specials)])
+        else:
+            out.append('abcdefghijklmnopqrstuvwxyz0123456789'[(i * 5 + salt) % 36])
+    return u''.join(out)
+
+
+def sized_doc(axis, n, ver):
+    """(list of grid models, single) for one point of the sweep; deterministic"""
+    pool = _size_pool(ver)
+    P = len(pool)
+    v3 = ver == '3.0'
+    if axis == 'rows':
+        cols = [['a', []], ['b', []], ['id', []]]
+        rows = [[['a', pool[i % P]], ['b', pool[(i * 3 + 1) % P]], ['id', ['ref', 'r%d' % i, None]]][: 3 if i % 4 else 2] for i in range(n)]
+        return [['grid', ver, [], cols, rows]], True
+    if axis == 'cols':
+        cols = [['c%d' % j, [['k', pool[j % P]]] if j % 3 == 0 else []] for j in range(n)]
+        rows = [[['c%d' % j, pool[(j + 1) % P]] for j in range(n) if (j + 1) % 4], [['c%d' % (n - 1), ['marker']]]]
+        return [['grid', ver, [], cols, rows]], True
+    if axis == 'gridmeta':
+        return [['grid', ver, [['m%d' % j, pool[j % P]] for j in range(n)], [['a', []]], [[['a', ['num', 1.0]]]]]], True
+    if axis == 'colmeta':
+        return [['grid', ver, [], [['a', [['m%d' % j, pool[j % P]] for j in range(n)]], ['b', []]], [[['b', ['num', 1.0]]]]]], True
+    if axis == 'list':
+        return [['grid', '3.0', [], [['a', []]], [[['a', ['list', [pool[j % P] for j in range(n)]]]]]]], True
+    if axis == 'dict':
+        return [['grid', '3.0', [], [['a', []]], [[['a', ['dict', [['t%d' % j, pool[j % P]] for j in range(n)]]]]]]], True
+    if axis == 'str':
+        s = _size_text(n)
+        return [['grid', ver, [['dis', ['str', s]]], [['a', [['dis', ['str', _size_text(n, 1)]]]]], [[['a', ['str', _size_text(n, 2)]]]]]], True
+    if axis == 'uri':
+        s = _size_text(n).replace('\n', '/').replace('\t', '~').replace('\x01', '!')
+        return [['grid', ver, [], [['a', []]], [[['a', ['uri', s]]]]]], True
+    if axis == 'refdis':
+        s = _size_text(n)
+        name = ''.join('abcXYZ019_:-.~'[(i * 3) % 14] for i in range(min(n, 300)))
+        return [['grid', ver, [], [['a', []], ['b', []]], [[['a', ['ref', 'x', s]], ['b', ['ref', name, None]]]]]], True
+    if axis == 'xstr':
+        return [['grid', '3.0', [], [['a', []]], [[['a', ['xstr', 'Blob', _size_text(n)]]],
+                                                   [['a', ['xstr', 'hex', ''.join('0123456789abcdef'[(i * 7) % 16] for i in range(2 * (n // 2)))]]]]]], True
+    if axis == 'grids':
+        return [['grid', ver if i % 2 else '3.0', [['n', ['num', float(i)]]], [['a', []]], [[['a', pool[i % P]]]] if i % 3 else []]
+                for i in range(n)], False
+    if axis == 'nestrows':
+        inner = ['grid', '3.0', [], [['x', []], ['y', []]], [[['x', pool[i % P]], ['y', ['num', float(i)]]] for i in range(n)]]
+        return [['grid', '3.0', [['g', inner]], [['a', []]], [[['a', inner]], [['a', ['list', [inner]]]]]]], True
+    if axis == 'strcells':
+        # n short string cells that are all different, then the same ones again (interning / memo tables)
+        vals = [['str', 's%d\n"' % i] for i in range(n)]
+        rows = [[['a', v], ['b', ['uri', 'u%d`' % i]]] for i, v in enumerate(vals)] + [[['a', v]] for v in vals[: 1 + n // 2]]
+        return [['grid', ver, [], [['a', []], ['b', []]], rows]], True
+    if axis == 'distinct':
+        # n distinct numbers / quantities / dates / times / date-times (memo tables keyed by value or by text)
+        rows = []
+        for i in range(n):
+            rows.append([['a', ['num', i + 0.5]], ['b', ['qty', float(i), 'kW']], ['c', ['date', 1970 + (i // 336) % 200, 1 + (i // 28) % 12, 1 + i % 28]],
+                         ['d', ['time', i % 24, (i // 24) % 60, (i * 7) % 60, (i * 1001) % 1000000 if i % 3 == 0 else 0]]])
+        rows += [[['a', ['num', i + 0.5]], ['b', ['qty', float(i), 'kWh']]] for i in range(0, n, 3)]
+        return [['grid', ver, [], [['a', []], ['b', []], ['c', []], ['d', []]], rows]], True
+    if axis == 'digits':
+        vals = [['num', float(10 ** n)] if n <= 308 else ['num', float(n)], ['num', float(2 ** min(n, 1023))], ['num', -float(2 ** min(n, 1023)) - 1.0],
+                ['num', 2.0 ** -min(n, 1074)], ['num', float(int(('1234567890' * 40)[:min(n, 308)]))],
+                ['qty', float(10 ** min(n, 308)), 'm'], ['num', float(n) + 0.5], ['num', float(n) / 7.0]]
+        return [['grid', ver, [], [['a', []]], [[['a', v]] for v in vals]]], True
+    if axis == 'nestlist':
+        # a list of n lists of 2 items, and a dict of n dicts
+        return [['grid', '3.0', [], [['a', []]], [[['a', ['list', [['list', [pool[j % P], ['num', float(j)]]] for j in range(n)]]]],
+                                                   [['a', ['dict', [['t%d' % j, ['dict', [['u', pool[j % P]]]]] for j in range(n)]]]]]]], True
+    raise ValueError(axis)
+
+
+SIZE_LIMIT = {  # largest n per axis: quick, thorough (cost of hszinc's ZINC reader is ~0.3 ms per cell)
+    'rows': (1025, 4097), 'cols': (513, 1025), 'gridmeta': (513, 1025), 'colmeta': (513, 1025), 'list': (257, 1025),
+    'dict': (129, 513), 'str': (131073, 131073), 'uri': (65537, 131073), 'refdis': (65537, 131073), 'xstr': (65537, 131073),
+    'grids': (129, 513), 'nestrows': (65, 257), 'strcells': (1025, 4097), 'distinct': (1025, 4097), 'digits': (1025, 1025),
+    'nestlist': (33, 129),
+}
+
+
+def sized_points(tier, v3_only_axes=('list', 'dict', 'xstr', 'nestrows', 'nestlist')):
+    out = []
+    for axis in SIZE_AXES:
+        lim = SIZE_LIMIT[axis][0 if tier == 'quick' else 1]
+        for n in SIZE_STEPS + SIZE_STEPS_LONG:
+            if n > lim:
+                break
+            for ver in (('3.0',) if axis in v3_only_axes else ('2.0', '3.0')):
+                if tier == 'quick' and ver == '2.0' and n > 300 and n % 2:
+                    continue
+                out.append((axis, n, ver))
+    return out
